@@ -45,6 +45,8 @@ REG = {
             "the YAML decoder is a parameter of the account-directory theorem (key_of: the login inside a complete record, None for anything else); the loaders themselves are run for real on every materialised crash state",
             "the system calls of each update are taken from strace of the real managers on every run (child process of the harness) and compared call by call with the model's scripts; calls outside the configuration directory are ignored; file contents written are inputs of the model (read back from the directory)",
             "static side of the tie (Gen/Persist.v): a call inside a loop, an else branch or a closure is refused by the derivation; the account file is renamed exactly when the login changes, and the two paths are assumed to differ exactly then (filepath.Join of distinct clean logins)",
+            "recovery is more than loading: on every materialised crash state the real managers make one more update of every kind, rewrite and delete every account and are reloaded (harness c20Continue); a failure there is reported as a state that is neither old nor new",
+            "recover1 models the loader's step for ONE file (the old file of the interrupted update); the theorem assumes a well-named directory before the update and that the new login's file name is free",
             "updates are made through the managers' own methods (FlatNews.Write, ThreadedNewsYAML.CreateGrouping/PostArticle/DeleteArticle, BanFile.Add, YAMLAccountManager.Create/Update/Delete), one at a time",
         ],
         "trusted_base": ["std++ gmap", "translator: Gen/Persist.v (every file-system-changing call of internal/mobius by function; FS/PersistSpec.v derives the scripts from it, theorem C20_sources_issue_the_modelled_scripts)", "strace 6.1 (-f -y -xx) and the trace parser / directory replayer in harness/c20.go (cross-checked on every run: the replayed directory must load to the same state as the directory the child left)", "modelled, not verified: kernel file-system semantics of open/write/rename/link/unlink"],
@@ -110,6 +112,7 @@ REG = {
             "a Read on the connection returns a non-empty piece of the remaining bytes, of any size (TCP may split or coalesce); urgent data, deadlines and half-close timing are not modelled (not used by mobius)",
             "bufio.Scanner is abstracted to: pending bytes, 64 KiB buffer limit, split function called on the pending bytes; validated against the real bufio.Scanner + transactionScanner on every run (op 3 cases)",
             "io.ReadFull / binary.Read / io.CopyN are modelled as read_full / copy_n over the chunk list",
+            "folder uploads: the stream model covers uploads into a fresh target (every file item is answered with 'send file'; skip and resume replies, which change what the client sends next, are C10's subject) whose streams are complete; the client side is written ahead of the server's replies, which do not depend on the segmentation",
         ],
         "trusted_base": ["modelled, not verified: bufio.Scanner, io.ReadFull, io.CopyN, net.Pipe as the in-memory connection whose reads return exactly the scripted pieces"],
     },
